@@ -206,6 +206,94 @@ def run(ctx):
         else:
             ctx.ok(R_val, {"validated_exits": len(exits)})
 
+    # sparse codec: interval analysis of the run-length emitters against the decoder's 7-bit length field
+    R_sparse = ctx.rule("C03.sparse-run-lengths-fit-marker", "every run length the sparse encoder packs into a marker byte is provably <= what the decoder's 7-bit field can express (upper-bound propagation through the chunking loops)", floor=2)
+    sp_c = fns.get(C + "algorithms::sparse::compress")
+    sp_d = fns.get(C + "algorithms::sparse::decompress")
+    if sp_c is None or sp_d is None:
+        ctx.bad(R_sparse, "sparse|missing", "-", "sparse codec not found", "anchor gone")
+    else:
+        ctx.saw_fn(sp_c)
+        ctx.saw_fn(sp_d)
+        # decoder biases: length = (b & 0x7F) + BIAS in the zero arm and the literal arm
+        biases = {}
+        for n in hirq.find(sp_d.hir["body"], "if"):
+            if "& 128" in hirq.render(n["c"]) or "& 0x80" in hirq.render(n["c"]):
+                for arm, name in ((n["then"], "literal"), (n.get("else"), "zero")):
+                    if arm is None:
+                        continue
+                    m_ = re.search(r"\(\(?one_byte & 127\)? \+ (\d+)\)", hirq.render(arm)) or re.search(r"& 127\) \+ (\d+)", hirq.render(arm))
+                    if m_:
+                        biases[name] = int(m_.group(1))
+        if set(biases) != {"literal", "zero"}:
+            ctx.bad(R_sparse, "sparse|decoder-shape", sp_d.where, "decoder length formulas not recognised (%s)" % biases, "cannot relate encoder and decoder")
+        else:
+            INF = 10 ** 9
+
+            def cmp_const(c, var):
+                c = hirq.strip(c)
+                if c.get("k") == "bin" and c["op"] in (">", ">=", "<", "<=") and hirq.render(hirq.strip(c["l"])) == var and hirq.lit_int(c["r"]) is not None:
+                    return c["op"], hirq.lit_int(c["r"])
+                return None
+
+            def dec_of(block, var):
+                for x in hirq.walk(block):
+                    if x.get("k") == "assignop" and x["op"].startswith("-") and hirq.render(hirq.strip(x["l"])) == var and hirq.lit_int(x["r"]) is not None:
+                        return hirq.lit_int(x["r"])
+                return None
+
+            def scan(stmts, var, ub, out):
+                for st_ in stmts:
+                    k = st_.get("k")
+                    if k == "loop":
+                        # while var > A { ..; var -= B }
+                        inner = next((x for x in hirq.find(st_["body"], "if")), None)
+                        cc = cmp_const(inner["c"], var) if inner else None
+                        if cc and cc[0] in (">", ">=") and dec_of(inner["then"], var):
+                            a = cc[1] if cc[0] == ">" else cc[1] - 1
+                            ub = min(ub, a) if ub != INF else a
+                            continue
+                    if k == "if":
+                        cc = cmp_const(st_["c"], var)
+                        if cc and cc[0] in (">", ">="):
+                            thr = cc[1] if cc[0] == ">" else cc[1] - 1
+                            d = dec_of(st_["then"], var)
+                            emits = [x for x in hirq.walk(st_["then"]) if x.get("k") == "mcall" and x["m"] == "push" and var in hirq.render(x["args"][0])]
+                            for e in emits:
+                                m2 = re.search(r"\(%s - (\d+)\)" % re.escape(var), hirq.render(e["args"][0]))
+                                if m2:
+                                    out.append((e["ln"], ub, int(m2.group(1)), hirq.render(e["args"][0])))
+                            if d and not emits:
+                                ub = max(min(ub, thr), ub - d) if ub != INF else INF
+                            continue
+                        # other ifs: recurse
+                        sub = hirq.strip(st_["then"])
+                        ub = scan(sub.get("stmts", []) + ([sub["e"]] if sub.get("e") else []), var, ub, out)
+                return ub
+            body = hirq.strip(sp_c.hir["body"])
+            loops = [x for x in hirq.find(body, "loop")]
+            outer = loops[0] if loops else None
+            found_any = False
+            if outer is not None:
+                blk = next((x for x in hirq.find(outer["body"], "if")), None)
+                stm = hirq.strip(blk["then"]) if blk else {"stmts": []}
+                allst = stm.get("stmts", []) + ([stm["e"]] if stm.get("e") else [])
+                for var, kind in (("number_of_non_zeros", "literal"), ("number_of_zeros", "zero")):
+                    outl = []
+                    scan(allst, var, INF, outl)
+                    for ln, ub, k_, expr in outl:
+                        found_any = True
+                        limit = 0x7F + biases[kind]
+                        if k_ != biases[kind]:
+                            ctx.bad(R_sparse, "sparse|%s|bias" % kind, "%s:%d" % (sp_c.file, ln), "encoder stores `%s` but the decoder adds %d" % (expr, biases[kind]), "run lengths are off by %d after a round trip" % abs(k_ - biases[kind]))
+                        elif ub == INF or ub > limit:
+                            ctx.bad(R_sparse, "sparse|%s|range" % kind, "%s:%d" % (sp_c.file, ln), "`%s` is emitted with %s <= %s, but the decoder's field only reaches %d (0x7F + %d)" % (expr, var, "unbounded" if ub == INF else hex(ub), limit, biases[kind]),
+                                    "for that run length the marker byte overflows into the other marker class: the decoder mis-reads the stream (wrong bytes or an error) although the stored form is shorter than the input")
+                        else:
+                            ctx.ok(R_sparse, {"kind": kind, "emit": expr, "upper_bound": ub, "decoder_limit": limit})
+            if not found_any:
+                ctx.bad(R_sparse, "sparse|encoder-shape", sp_c.where, "run-length emitters not recognised", "shape changed")
+
     vname = "wow_mpq::security::validate_decompression_operation"
     ds = fns.get(C + "decompress::decompress_secure")
     for f, who in ((comp, "compress"), (ds, "decompress_secure")):
